@@ -176,6 +176,26 @@ pub fn gen(seed: u64, n: usize, out: &mut Out) {
             out.stat("kind_u8_fill");
             continue;
         }
+        if id % 120 == 65 {
+            // fill the u8 EDGE index space on a few nodes: the 256th edge must be refused and refusing must change nothing;
+            // then free a slot and fill it again
+            let nn = 4 + r.below(4);
+            let mut flat = Vec::new();
+            for k in 0..255 { flat.extend_from_slice(&[r.below(nn) as i64, r.below(nn) as i64, (k % 50) as i64]); }
+            ops.push(("extend_with_edges".into(), flat));
+            ops.push(("try_add_edge".into(), vec![0, 1, 3]));
+            ops.push(("try_add_edge".into(), vec![1, 0, 3]));
+            ops.push(("try_update_edge".into(), vec![2, 2, 4]));
+            ops.push(("remove_edge".into(), vec![r.below(255) as i64]));
+            ops.push(("try_add_edge".into(), vec![1, 2, 5]));
+            ops.push(("try_add_edge".into(), vec![2, 1, 6]));
+            ops.push(("add_edge".into(), vec![0, 0, 7]));
+            ops.push(("remove_node".into(), vec![r.below(nn) as i64]));
+            ops.push(("try_add_edge".into(), vec![0, 1, 8]));
+            run_case(id, &[directed as i64, 0, 255, 1, 0], &ops, out);
+            out.stat("kind_u8_edge_fill");
+            continue;
+        }
         let len = 8 + r.below(40);
         let mut nb: usize = 0; let mut eb: usize = 0;    // approximate bounds (slots ever created)
         let mut pairs: Vec<(i64, i64)> = Vec::new();
